@@ -20,7 +20,7 @@ LEVEL = "exploration"
 META = {
     "engine": "differential",
     "technique": "runtime monitor: paired free/fixed rendering of generated programs, outline / definition targets / diagnostics of the real server compared modulo the line map; form classification observed on the hooked file object for fixed renderings and for C13's free-form layouts",
-    "text": "Every generated multi-file program is indexed twice, as free-form .f90 files and as their fixed-form .f twins produced by a token-level converter (random comment flags, continuation marks, forced and overlong-line continuation breaks, labels, labelled DO); outline, definition target of every identifier and diagnostics must agree modulo the line map, every twin must be classified fixed and every free layout (C13 transformations of samples and generated programs) free. Sampled programs and layouts.",
+    "text": "Every generated multi-file program is indexed twice, as free-form .f90 files and as their fixed-form .f twins produced by a token-level converter (random comment flags, continuation marks, forced and overlong-line continuation breaks, labels, labelled DO); outline, definition target of every identifier and diagnostics must agree modulo the line map, every twin must be classified fixed and every free layout (C13 transformations of samples and generated programs) free. Sampled programs and layouts. The converter also emits tight breaks, comment lines ending in &, comment/blank lines between continuation lines and comment text with ';'; a form-transition sub-check replaces the text of an open document by its twin of the other form through one ranged change.",
     "note": "trusted: the converter and its line/token map; programs contain no character literal spanning a break; form classification is read from the server's file object; the known content-heuristic misclassification of unindented free-form text is a recorded finding",
 }
 RULE = ("generated workspaces x fixed rendering choices (comment flag, indentation after column 6, continuation mark and break position, labelled DO); plus "
